@@ -281,6 +281,139 @@ func main() {
 		}
 		def("forkDepthLimit", want(cs[1], token.GEQ, "fork depth"), "PreCheckBlock: side branch refused when lastHeight - height >= this")
 	}
+	// BlockIndex look-ups of PreCheckBlock: the map is keyed by BIdx (first 8 bytes of a hash). Structural facts:
+	// is the entry found compared with the WHOLE hash (a) of the block itself, (b) of the previous-block field?
+	// `true`/`false` is emitted (the model follows the source, the theorems need `true`); any other shape stops.
+	{
+		mentions := func(e ast.Node, name string) (yes bool) {
+			ast.Inspect(e, func(n ast.Node) bool {
+				switch x := n.(type) {
+				case *ast.SelectorExpr:
+					if x.Sel.Name == name {
+						yes = true
+					}
+				case *ast.Ident:
+					if x.Name == name {
+						yes = true
+					}
+				}
+				return true
+			})
+			return
+		}
+		// a negated call `!X.Equal(...)` / `!bytes.Equal(...)` that mentions every name of `names`
+		negEqual := func(e ast.Expr, names ...string) bool {
+			u, ok := e.(*ast.UnaryExpr)
+			if !ok || u.Op != token.NOT {
+				return false
+			}
+			call, ok := u.X.(*ast.CallExpr)
+			if !ok {
+				return false
+			}
+			fn, ok := call.Fun.(*ast.SelectorExpr)
+			if !ok || fn.Sel.Name != "Equal" {
+				return false
+			}
+			for _, n := range names {
+				if !mentions(call, n) {
+					return false
+				}
+			}
+			return true
+		}
+		defb := func(name string, v bool, comment string) {
+			fmt.Fprintf(&sb, "/-- %s -/\ndef %s : Bool := %v\n", comment, name, v)
+			facts++
+		}
+		// (a) `if prv, pres := ch.BlockIndex[bl.Hash.BIdx()]; pres { [if !prv.BlockHash.Equal(bl.Hash) {…return}] if prv.Parent == nil {…} else {…} }`
+		var known *ast.IfStmt
+		for _, st := range pre.Body.List {
+			is, ok := st.(*ast.IfStmt)
+			if !ok || is.Init == nil {
+				continue
+			}
+			as, ok := is.Init.(*ast.AssignStmt)
+			if !ok || len(as.Lhs) != 2 || len(as.Rhs) != 1 {
+				continue
+			}
+			if ix, ok := as.Rhs[0].(*ast.IndexExpr); ok && mentions(ix.X, "BlockIndex") && mentions(ix.Index, "BIdx") {
+				known = is
+			}
+		}
+		if known == nil {
+			die("PreCheckBlock: the `if prv, pres := ch.BlockIndex[...]; pres` test was not found")
+		}
+		entry := known.Init.(*ast.AssignStmt).Lhs[0].(*ast.Ident).Name
+		if len(known.Body.List) == 0 {
+			die("PreCheckBlock: empty known-block test")
+		}
+		first, ok := known.Body.List[0].(*ast.IfStmt)
+		if !ok {
+			die("PreCheckBlock: known-block test has unexpected shape")
+		}
+		switch {
+		case negEqual(first.Cond, entry, "BlockHash", "Hash") && len(known.Body.List) == 2:
+			ret := false
+			for _, st := range first.Body.List {
+				if _, ok := st.(*ast.ReturnStmt); ok {
+					ret = true
+				}
+			}
+			if !ret {
+				die("PreCheckBlock: the index-collision guard does not return")
+			}
+			defb("knownHashCompared", true, "PreCheckBlock: the BlockIndex entry found under the block's own key is compared with the whole block hash")
+		case len(known.Body.List) == 1 && mentions(first.Cond, "Parent"):
+			defb("knownHashCompared", false, "PreCheckBlock: the BlockIndex entry found under the block's own key is NOT compared with the whole block hash")
+		default:
+			die("PreCheckBlock: known-block test has unexpected shape")
+		}
+		// (b) `prevblk, ok := ch.BlockIndex[…BIdx()]` followed by `if !ok [|| !bytes.Equal(prevblk.BlockHash.Hash[:], bl.ParentHash())] {… parent not found …}`
+		pg := findIf(pre, "parent not found")
+		var pvar, okvar string
+		for i, st := range pre.Body.List {
+			if st == ast.Stmt(pg) && i > 0 {
+				if as, ok := pre.Body.List[i-1].(*ast.AssignStmt); ok && len(as.Lhs) == 2 && len(as.Rhs) == 1 {
+					if ix, ok := as.Rhs[0].(*ast.IndexExpr); ok && mentions(ix.X, "BlockIndex") && mentions(ix.Index, "ParentHash") && mentions(ix.Index, "BIdx") {
+						pvar, okvar = as.Lhs[0].(*ast.Ident).Name, as.Lhs[1].(*ast.Ident).Name
+					}
+				}
+			}
+		}
+		if pvar == "" {
+			die("PreCheckBlock: the parent look-up `prevblk, ok := ch.BlockIndex[…ParentHash()…BIdx()]` does not precede the parent-not-found guard")
+		}
+		notOk := func(e ast.Expr) bool {
+			u, ok := e.(*ast.UnaryExpr)
+			if !ok || u.Op != token.NOT {
+				return false
+			}
+			id, ok := u.X.(*ast.Ident)
+			return ok && id.Name == okvar
+		}
+		if notOk(pg.Cond) {
+			defb("parentHashCompared", false, "PreCheckBlock: the parent found in BlockIndex is NOT compared with the whole previous-block field")
+		} else if be, ok := pg.Cond.(*ast.BinaryExpr); ok && be.Op == token.LOR && notOk(be.X) && negEqual(be.Y, pvar, "BlockHash", "ParentHash") {
+			defb("parentHashCompared", true, "PreCheckBlock: the parent found in BlockIndex is compared with the whole previous-block field")
+		} else {
+			die("PreCheckBlock: parent-not-found guard has unexpected shape")
+		}
+		// the same guard in AcceptHeader (panic instead of an error)
+		ca := parse("lib/chain/chain_accept.go")
+		ah, err := ca.Func("Chain", "AcceptHeader")
+		if err != nil {
+			die("%v", err)
+		}
+		ag := findIf(ah, "This should not happen")
+		if be, ok := ag.Cond.(*ast.BinaryExpr); ok && be.Op == token.LOR && negEqual(be.Y, "BlockHash", "ParentHash") {
+			defb("acceptHeaderParentHashCompared", true, "AcceptHeader: the parent found in BlockIndex is compared with the whole previous-block field")
+		} else if _, ok := ag.Cond.(*ast.UnaryExpr); ok {
+			defb("acceptHeaderParentHashCompared", false, "AcceptHeader: the parent found in BlockIndex is NOT compared with the whole previous-block field")
+		} else {
+			die("AcceptHeader: parent guard has unexpected shape")
+		}
+	}
 	// version gating: three `ver < k && bl.Height >= ch.Consensus.X`
 	{
 		is := findIf(pre, "Rejected Version=")
